@@ -50,10 +50,10 @@ CHECKS.update({
    note=TB + 'Harness-enforced (B2) runs check pre/post but not a DFCC assigns clause; the frame is asserted explicitly over the whole output string. Not decided: float text leg (print/parse identity of libstdc++/libc), date/time/string types.',
    ref='DESIGN.md 5 (C06)'),
  'C10': dict(
-   technique='CBMC contracts: per-field locality of NumberDataType::readRawValue / writeRawValue (owned bytes and bit mask, whole-string frame)',
+   technique='CBMC contracts: per-field locality of NumberDataType::readRawValue / writeRawValue (owned bytes and bit mask, whole-string frame); DataFieldSet::getLength/read/read/write + SingleDataField::hasFullByteOffset offset bookkeeping harness-enforced (bounded stand-in: up to 8 / 12 fields)',
    level='proof',
-   text='Field-level part of C10: a numeric field reads only its own bytes at (offset, length), writes only those bytes, a bit field only ORs its owned bits into an already existing byte; proved for all offsets and type shapes. The offset bookkeeping of DataFieldSet (three loops) is added when unit fields is built.',
-   note=TB + 'DataFieldSet::getLength/read/write loops not yet under contract in this revision.',
+   text='Field-level part of C10: a numeric field reads only its own bytes at (offset, length), writes only those bytes, a bit field only ORs its owned bits into an already existing byte; proved for all offsets and type shapes. The offset bookkeeping of DataFieldSet (getLength, both read variants, write) is checked on the extracted loops for every set of up to 8 fields (12 in thorough): all four visit each field of the part exactly once at the same offset, fields follow each other without gaps, only a bit field shares the byte of the preceding bit field (and does when that byte is incomplete and it starts at another bit), the length is the number of bytes spanned. This part is a bounded stand-in and not counted as proved.',
+   note=TB + 'Field-set part bounded by the number of fields (8 quick, 12 thorough; MAX_POS is 24); SingleDataField::read/write are stubs recording their offset (their locality is the per-field part). Not pinned down: whether a byte stays open after two consecutive bit fields with the same first bit (the code closes it). Date/time/string types only via their length.',
    ref='DESIGN.md 5 (C10)'),
  'C20': dict(
    technique='CBMC safety obligations (bounds, pointer, shift distance, signed overflow, division by zero, unwinding) on every extracted function under arbitrary-input preconditions',
